@@ -24,6 +24,7 @@ EXPLANATION = (
     "(R4) no process exit is reachable; (R7) node-weighted input and its subpath constraints reach the model through total translators "
     "following the expansion scheme (dropping a constraint element weakens the problem and lowers the reported minimum); (R6) the caller's options dict - from which the `lowerbound_k` option is read - and the other "
     "(R8) the greedy shortcut is accepted only after a coverage test that counts the constraint's edges among the *edges* of a path (body of graphutils.max_occurrence) in the unit of the threshold.  "
+    " (R2, extended) the exclusive upper end of the k-range is at least |E| + number of subpath constraints + 1: pairwise incompatible constraints need a path each. "
     "input objects are never written (sub-searches work on copies), so a bound computed for one graph cannot leak into the search on another.  NOT decided: minimality, completeness, validity of each provider as a bound."
 )
 DECIDED = ["search protocol of MinFlowDecomp.solve on every path", "range reaches the largest attainable optimum",
